@@ -156,6 +156,9 @@ def tie_accelerations(c, rebound, exe):
     for case in range(ncases):
         rng = c.rng.fork()
         n = rng.choice([2, 2, 3, 3, 4, 5, 6, 8]) if case % 7 else rng.randint(9, 24)
+        if case == 3:
+            n = 45          # 45 real + 3*45 + 3 variational = 183 particles: crosses the 128-entry allocation boundary
+            c.cov["tie_big_N_cases"] = c.cov.get("tie_big_N_cases", 0) + 1
         hist[n] = hist.get(n, 0) + 1
         G, L, m0, ps = gen_gravity_case(rng, n)
         da = gen_var(rng, n, L, m0)
@@ -1963,6 +1966,440 @@ def search_rejected_steps(c, rebound):
                     (f["integrator"], f["order"], f["keys"], f["rel_err"], f["rejected_steps"], f["config"]), f)
 
 
+# ============================================================================ search: cross-cutting dimensions
+def dim(c, name, n=1):
+    d_ = c.cov.setdefault("dimensions", {})
+    d_[name] = d_.get(name, 0) + n
+
+
+APPLICABLE_DIMENSIONS = [
+    "roles: N_active<N, type 0, massless test particle", "roles: N_active<N, type 0, massive inactive particle",
+    "roles: N_active<N, type 1, massive test particle", "roles: zero-mass active body", "roles: single active body",
+    "roles: testparticle= variation, order 1", "roles: testparticle= variation, order 2", "roles: varied particle index 0",
+    "roles: varied particle index >= 2",
+    "options: G != 1", "options: total mass != 1", "options: softening != 0", "options: whfast safe_mode=0",
+    "options: whfast keep_unsynchronized=1", "options: whfast correctors", "options: ias15 non-default", "options: bs non-default",
+    "time: dt < 0", "time: integrate() split in several calls", "time: direction reversal between calls",
+    "time: exact_finish_time=0 (fixed step)",
+    "callbacks: additional_forces with variational counterpart", "callbacks: velocity-dependent additional_forces with counterpart",
+    "callbacks: post_timestep_modifications (no-op)", "callbacks: heartbeat",
+    "history: copy mid-run", "history: save/restore mid-run", "history: integrator switched mid-run", "history: rescale event",
+    "history: rejected steps", "history: restore after rescale (lrescale persisted)",
+    "frame: move_to_com mid-run", "frame: move_to_hel mid-run", "frame: rotate mid-run", "frame: convert_particle_units mid-run",
+    "geometry: centre of mass offset and moving", "geometry: hyperbolic body",
+    "megno: whfast", "megno: ias15", "megno: eos", "megno: after restore",
+    "scale: more than 128 particles (allocation boundary)", "python: shortcut names",
+]
+
+
+def search_dimensions(c, rebound):
+    """cross the finite-difference oracle (variation = derivative of equally treated shadow runs) with the configuration
+    dimensions that hid seeded bugs: roles, options, time, callbacks, histories, frame operations, geometry."""
+    THR = 1e-3
+    worst, fails = {}, []
+    ninc = ntot = 0
+    measured = {}
+    full = c.thorough
+    rng0 = c.rng.fork()
+    tmpdir = os.environ.get("VERIF_TMP", "/tmp")
+
+    def base_system(rng, G=1.0, m0=1.0, extra=None, nactive=None, masses=None):
+        sy = gen_system(rebound, rng)
+        b = list(sy.bodies)
+        if masses:
+            b = [(masses[i] if i < len(masses) and masses[i] is not None else m, k, el) for i, (m, k, el) in enumerate(b)]
+        if extra:
+            b += extra
+        return System(rebound, G, m0, b, nactive)
+
+    def go(name, sy, integ, keys, T=10.0, opts=None, com=True, tp=None, expect_fail=False, dims=()):
+        nonlocal ninc, ntot
+        opts = dict(opts or {})
+        opts.setdefault("dt", 0.01 if T > 0 else -0.01)
+        sy2 = sy
+        for (i, par) in keys:
+            if par in PAL[2:]:
+                sy2 = sy2.with_kind(i, "pal")
+        try:
+            err, unc, var, fd = shadow_case(sy2, integ, T, keys, com, tp, opts)
+        except Exception as ex:
+            err, unc, var, fd = float("inf"), 0.0, [], [repr(ex)[:300]]
+        ntot += 1
+        c.count(("dim", name, integ, tuple(keys)), nontrivial=True)
+        if expect_fail:
+            measured[name + "/" + integ] = float("%.3g" % err)
+            return err
+        if unc > THR / 4:
+            ninc += 1
+            return err
+        for d_ in (name,) + tuple(dims):
+            dim(c, d_)          # evaluated with a conclusive oracle (pass or fail)
+        kk = name
+        worst[kk] = max(worst.get(kk, 0.0), err)
+        if not err <= THR + 4 * unc:
+            fails.append(dict(dimension=name, integrator=integ, keys=keys, T=T, G=sy2.G, m0=sy2.m0, bodies=sy2.bodies, N_active=sy2.nactive,
+                              options={k: v for k, v in opts.items() if not callable(v)}, testparticle=tp, rel_err=err, oracle_uncertainty=unc,
+                              variational=var[:12], finite_difference=fd[:12]))
+        return err
+
+    ALL = ["ias15", "bs", "whfast", "leapfrog"]
+    pick = lambda k, lst=ALL: lst if full else [lst[k % len(lst)], lst[(k + 2) % len(lst)]]
+    k1 = lambda k: ([(1, "x"), (2, "vy"), (1, "a"), (2, "e"), (1, "lambda")] if full else [[(1, "a")], [(2, "vy")], [(1, "x")], [(2, "e")]][k % 4])
+    keysets = lambda k: ([[kk_] for kk_ in k1(k)] if full else [k1(k)])
+    tpextra = lambda rng, m: [(m, "orb", [rng.uniform(3.3, 4.0), rng.uniform(0.02, 0.15), rng.uniform(0.02, 0.4), rng.uniform(0, 6.28), rng.uniform(0, 6.28), rng.uniform(0, 6.28)])]
+    cnt = 0
+    # ------------------------------------------------------------------ roles
+    for name, mtest, tpt in (("roles: N_active<N, type 0, massless test particle", 0.0, 0), ("roles: N_active<N, type 0, massive inactive particle", 1e-3, 0),
+                             ("roles: N_active<N, type 1, massive test particle", 1e-3, 1)):
+        rng = rng0.fork()
+        sy = base_system(rng, extra=tpextra(rng, mtest), nactive=3)
+        st = lambda sim, tpt=tpt: setattr(sim, "testparticle_type", tpt)
+        for integ in pick(cnt):
+            cnt += 1
+            for keys in [[(1, "a")], [(3, "x")], [(2, "e")]] if full else [[(1, "a")], [(3, "x")]]:
+                go(name, sy, integ, keys, opts={"setup": st}, com=False)
+        if tpt == 0:
+            for integ in (["ias15", "bs"] if full else ["ias15"]):
+                go(name, sy, integ, [(1, "a"), (3, "x")], opts={"setup": st}, com=False)
+                go("roles: testparticle= variation, order 1", sy, integ, [(3, "a")], opts={"setup": st}, com=False, tp=3)
+                go("roles: testparticle= variation, order 2", sy, integ, [(3, "a"), (3, "e")], opts={"setup": st}, com=False, tp=3)
+    rng = rng0.fork()
+    sy = base_system(rng, masses=[0.0, None])          # an active planet with zero mass
+    for integ in pick(cnt):
+        cnt += 1
+        go("roles: zero-mass active body", sy, integ, [(1, "x")])
+        go("roles: zero-mass active body", sy, integ, [(2, "a")])
+    sy = base_system(rng0.fork(), nactive=1)            # only the star is active
+    for integ in (ALL if full else ["whfast", "ias15"]):
+        go("roles: single active body", sy, integ, [(1, "a")], com=False)
+        go("roles: single active body", sy, integ, [(2, "x")], com=False)
+    sy = base_system(rng0.fork())
+    for integ in pick(cnt):
+        cnt += 1
+        go("roles: varied particle index 0", sy, integ, [(0, "x")])
+        go("roles: varied particle index 0", sy, integ, [(0, "m_cart")] if integ != "whfast" else [(0, "vy")])
+        go("roles: varied particle index >= 2", sy, integ, [(2, "a")])
+    # ------------------------------------------------------------------ options
+    sy = base_system(rng0.fork(), G=rng0.uniform(2.0, 6.0))
+    for integ in pick(cnt):
+        cnt += 1
+        for keys in keysets(cnt):
+            go("options: G != 1", sy, integ, keys)
+        if integ in ("ias15", "bs"):
+            go("options: G != 1", sy, integ, [(1, "m")])
+            go("options: G != 1", sy, integ, [(1, "a"), (1, "m")])
+    sy = base_system(rng0.fork(), m0=rng0.uniform(2.2, 3.5))
+    for integ in pick(cnt):
+        cnt += 1
+        for keys in keysets(cnt):
+            go("options: total mass != 1", sy, integ, keys)
+        if integ in ("ias15", "bs"):
+            go("options: total mass != 1", sy, integ, [(1, "m")])
+            go("options: total mass != 1", sy, integ, [(2, "m_cart"), (1, "x")])
+    sy = base_system(rng0.fork())
+    soft = lambda sim: setattr(sim, "softening", 0.15)
+    for integ in pick(cnt):
+        cnt += 1
+        for keys in keysets(cnt):
+            go("options: softening != 0", sy, integ, keys, opts={"setup": soft})
+        if integ in ("ias15", "bs"):
+            go("options: softening != 0", sy, integ, [(1, "a"), (2, "x")], opts={"setup": soft})
+    for corr in ((3, 5, 7, 11, 17) if full else (5, 17)):
+        go("options: whfast correctors", sy, "whfast", [(1, "a")], opts={"corrector": corr})
+    go("options: whfast safe_mode=0", sy, "whfast", [(1, "a")], opts={"safe_mode": 0})
+    go("options: whfast safe_mode=0", sy, "whfast", [(2, "vy")], opts={"safe_mode": 0, "corrector": 11})
+
+    def hist_unsync(sim, T):
+        # intermediate outputs with keep_unsynchronized=1: particles are synchronized for the user, the integration continues
+        # from the unsynchronized state
+        for f_ in (0.3, 0.6, 1.0):
+            sim.integrate(f_ * T, exact_finish_time=0)
+        sim.ri_whfast.keep_unsynchronized = 0
+        sim.synchronize()
+        return sim
+    for corr in (0, 7):
+        go("options: whfast keep_unsynchronized=1", sy, "whfast", [(1, "a")], opts={"safe_mode": 0, "keep_unsynchronized": 1, "corrector": corr, "history": hist_unsync},
+           dims=("time: exact_finish_time=0 (fixed step)",))
+    ias_opts = [lambda sim: setattr(sim.ri_ias15, "epsilon", 1e-7), lambda sim: setattr(sim.ri_ias15, "adaptive_mode", 0),
+                lambda sim: setattr(sim.ri_ias15, "adaptive_mode", 1), lambda sim: (setattr(sim.ri_ias15, "epsilon", 0.0), setattr(sim, "dt", 0.02)),
+                lambda sim: setattr(sim.ri_ias15, "min_dt", 0.05)]
+    for k, st in enumerate(ias_opts if full else [ias_opts[0], ias_opts[3]]):
+        go("options: ias15 non-default", sy, "ias15", [(1, "a")], opts={"setup": st})
+        go("options: ias15 non-default", sy, "ias15", [(2, "x"), (1, "e")], opts={"setup": st})
+    bs_opts = [lambda sim: setattr(sim.ri_bs, "max_dt", 0.2), lambda sim: setattr(sim.ri_bs, "min_dt", 1e-3),
+               lambda sim: (setattr(sim.ri_bs, "eps_rel", 1e-13), setattr(sim.ri_bs, "eps_abs", 1e-13))]
+    for st in (bs_opts if full else bs_opts[:1]):
+        go("options: bs non-default", sy, "bs", [(1, "a")], opts={"setup": st})
+        go("options: bs non-default", sy, "bs", [(2, "x"), (1, "e")], opts={"setup": st})
+    # ------------------------------------------------------------------ time
+    sy = base_system(rng0.fork())
+    for integ in ALL:
+        go("time: dt < 0", sy, integ, [(1, "a")], T=-10.0)
+        if integ in ("ias15", "bs"):
+            go("time: dt < 0", sy, integ, [(1, "a"), (2, "e")], T=-10.0)
+
+    def hist_split(sim, T):
+        for f_ in (0.31, 0.62, 1.0):
+            sim.integrate(f_ * T, exact_finish_time=1)
+        return sim
+
+    def hist_reverse(sim, T):
+        for f_ in (0.7, 0.35, 1.0):
+            sim.integrate(f_ * T, exact_finish_time=1)
+        return sim
+    for integ in pick(cnt, ALL):
+        cnt += 1
+        go("time: integrate() split in several calls", sy, integ, [(1, "a")], opts={"history": hist_split})
+        go("time: direction reversal between calls", sy, integ, [(2, "vy")], opts={"history": hist_reverse})
+    for integ in ("whfast", "leapfrog"):
+        go("time: exact_finish_time=0 (fixed step)", sy, integ, [(1, "a")], opts={"exact_finish_time": 0})
+    # ------------------------------------------------------------------ callbacks
+    kf, gam = 0.05, 0.02
+
+    def with_forces(counterpart, veldep):
+        def setup(sim):
+            def af(simp):
+                s_ = simp.contents
+                ps = s_.particles
+                n_ = s_.N if counterpart else s_.N - s_.N_var
+                for i_ in range(n_):
+                    p_ = ps[i_]
+                    if veldep:
+                        p_.ax -= gam * p_.vx; p_.ay -= gam * p_.vy; p_.az -= gam * p_.vz
+                    else:
+                        p_.ax -= kf * p_.x; p_.ay -= kf * p_.y; p_.az -= kf * p_.z
+            sim.additional_forces = af
+            sim.force_is_velocity_dependent = 1 if veldep else 0
+            sim._keep_af = af
+        return setup
+    for integ in (["ias15", "bs", "leapfrog", "whfast"] if full else ["ias15", "whfast"]):
+        go("callbacks: additional_forces with variational counterpart", sy, integ, [(1, "a")], opts={"setup": with_forces(True, False), "dt": 0.02}, T=6.0)
+    for integ in (["ias15", "bs"] if full else ["ias15"]):
+        go("callbacks: velocity-dependent additional_forces with counterpart", sy, integ, [(1, "a")], opts={"setup": with_forces(True, True)}, T=6.0)
+    # the user has to supply the derivative of an additional force for the variational particles; without it the variation is NOT
+    # the derivative (outside the property: measured, never alarmed)
+    go("excluded: additional_forces WITHOUT variational counterpart", sy, "ias15", [(1, "a")], opts={"setup": with_forces(False, False)}, T=6.0, expect_fail=True)
+
+    def noop_ptm(sim):
+        def f_(simp):
+            pass
+        sim.post_timestep_modifications = f_
+        sim._keep_ptm = f_
+
+    def noop_hb(sim):
+        def f_(simp):
+            pass
+        sim.heartbeat = f_
+        sim._keep_hb = f_
+    for integ in (["whfast", "ias15", "leapfrog"] if full else ["whfast", "ias15"]):
+        go("callbacks: post_timestep_modifications (no-op)", sy, integ, [(1, "a")], opts={"setup": noop_ptm, "dt": 0.02}, T=6.0)
+    for integ in (["whfast", "ias15", "bs"] if full else ["whfast"]):
+        go("callbacks: heartbeat", sy, integ, [(2, "vy")], opts={"setup": noop_hb, "dt": 0.02}, T=6.0)
+    # ------------------------------------------------------------------ histories
+    def hist_copy(sim, T):
+        sim.integrate(0.5 * T, exact_finish_time=1)
+        s2 = sim.copy()
+        s2.integrate(T, exact_finish_time=1)
+        return s2
+
+    def hist_save(sim, T):
+        sim.integrate(0.5 * T, exact_finish_time=1)
+        fn = os.path.join(tmpdir, "c16_%d_%d.bin" % (os.getpid(), id(sim) % 100000))
+        sim.save_to_file(fn, delete_file=True)
+        s2 = rebound.Simulation(fn)
+        os.remove(fn)
+        s2.integrate(T, exact_finish_time=1)
+        return s2
+
+    def hist_switch(to):
+        def h(sim, T):
+            sim.integrate(0.5 * T, exact_finish_time=1)
+            sim.integrator = to
+            if to in ("whfast", "leapfrog"):
+                sim.dt = 0.01 if T > 0 else -0.01
+            sim.integrate(T, exact_finish_time=1)
+            return sim
+        return h
+    for integ in pick(cnt, ALL):
+        cnt += 1
+        go("history: copy mid-run", sy, integ, [(1, "a")], opts={"history": hist_copy})
+        go("history: save/restore mid-run", sy, integ, [(2, "e")], opts={"history": hist_save})
+    for integ in (["ias15", "bs"] if full else ["ias15"]):
+        go("history: save/restore mid-run", sy, integ, [(1, "a"), (2, "x")], opts={"history": hist_save})
+    for a_, b_ in ((("ias15", "whfast"), ("whfast", "ias15"), ("bs", "leapfrog"), ("leapfrog", "bs")) if full else (("ias15", "whfast"), ("whfast", "ias15"))):
+        go("history: integrator switched mid-run", sy, a_, [(1, "a")], opts={"history": hist_switch(b_)})
+    # ------------------------------------------------------------------ frame operations mid-run (C20's operations)
+    def hist_op(op):
+        def h(sim, T):
+            sim.integrate(0.5 * T, exact_finish_time=1)
+            op(sim)
+            sim.integrate(T, exact_finish_time=1)
+            return sim
+        return h
+    rot = rebound.Rotation(angle=0.7, axis=[0.3, -0.5, 0.8])
+
+    for integ in pick(cnt, ALL):
+        cnt += 1
+        go("frame: move_to_com mid-run", sy, integ, [(1, "m_cart")] if integ in ("ias15", "bs") else [(1, "a")], opts={"history": hist_op(lambda sim: sim.move_to_com())}, com=False)
+        go("frame: rotate mid-run", sy, integ, [(2, "vy")], opts={"history": hist_op(lambda sim: sim.rotate(rot))})
+        go("frame: move_to_hel mid-run", sy, integ, [(1, "a")], opts={"history": hist_op(lambda sim: sim.move_to_hel())}, expect_fail=False)
+    # units: the run is set up in (yr, AU, Msun) so that convert_particle_units has a defined starting point
+    syu = System(rebound, 39.476926421373, 1.0, sy.bodies)
+    for integ in (["ias15", "whfast"] if full else ["ias15"]):
+        def setup_units(sim):
+            sim.update_units(("au", "yr", "msun"))      # declare what the numbers mean (G = 39.4769... is already set accordingly)
+
+        def hist_units(sim, T):
+            sim.integrate(0.5 * T, exact_finish_time=1)
+            sim.convert_particle_units("day", "km", "kg")
+            sim.dt = sim.dt * 365.25 if integ == "whfast" else sim.dt
+            sim.integrate(0.5 * T + 0.5 * T * 365.25, exact_finish_time=1)
+            return sim
+        go("frame: convert_particle_units mid-run", syu, integ, [(1, "x")], T=1.6, opts={"setup": setup_units, "history": hist_units, "dt": 0.002})
+    # ------------------------------------------------------------------ geometry
+    def boost(sim):
+        for i_ in range(sim.N):
+            p_ = sim.particles[i_]
+            p_.x += 40.0; p_.y -= 25.0; p_.z += 3.0
+            p_.vx += 0.7; p_.vy += 1.3; p_.vz -= 0.4
+    for integ in pick(cnt, ALL):
+        cnt += 1
+        go("geometry: centre of mass offset and moving", sy, integ, [(1, "a")], opts={"setup": boost}, com=False)
+    rngh = rng0.fork()
+    syh = System(rebound, 1.0, 1.0, list(sy.bodies[:1]) + [(1e-3, "orb", [-2.0, 1.6, 0.3, 1.0, 0.5, -1.2])])
+    for integ in (["ias15", "bs", "whfast"] if full else ["ias15", "whfast"]):
+        go("geometry: hyperbolic body", syh, integ, [(2, "x")], T=6.0)
+        go("geometry: hyperbolic body", syh, integ, [(2, "vy")], T=6.0)
+    # ------------------------------------------------------------------ rescale + restore: lrescale persisted, continuity across save/load
+    for integ in (["whfast", "ias15", "bs"] if full else ["whfast", "ias15"]):
+        sims = []
+        for big in (9e99, 1e-10):
+            sim = sy.build(integ, None, {"dt": 0.02})
+            v = sim.add_variation()
+            rr = SplitMix(99)
+            for i_ in range(3):
+                for comp in CART:
+                    setattr(v.particles[i_], comp, rr.normal() * big)
+            sim.integrate(20.0, exact_finish_time=1)
+            if big > 1:
+                lr_before = v.lrescale
+                fn = os.path.join(tmpdir, "c16r_%d.bin" % os.getpid())
+                sim.save_to_file(fn, delete_file=True)
+                sim = rebound.Simulation(fn)
+                os.remove(fn)
+                lr_after = sim.var_config[0]._lrescale
+            sim.integrate(40.0, exact_finish_time=1)
+            idx = sim.var_config[0].index
+            sims.append((sim, [getattr(sim.particles[idx + i_], comp) for i_ in range(3) for comp in CART], sim.var_config[0]._lrescale))
+        (sb, A, lrb), (ss, B, lrs) = sims
+        lfac = (lrb - lrs) - math.log(9e99 / 1e-10)
+        sc = max(abs(x) for x in B)
+        e = max(abs(a * math.exp(lfac / 2) * math.exp(lfac / 2) - b) for a, b in zip(A, B)) / sc
+        ntot += 1
+        c.count(("dim", "restore-after-rescale", integ), nontrivial=True)
+        worst["history: restore after rescale (lrescale persisted)"] = max(worst.get("history: restore after rescale (lrescale persisted)", 0.0), e)
+        if lr_before > 0 and d2h(lr_before) == d2h(lr_after) and e <= 1e-6:
+            dim(c, "history: restore after rescale (lrescale persisted)")
+        else:
+            fails.append(dict(dimension="history: restore after rescale (lrescale persisted)", integrator=integ, keys=[], lrescale_before_save=lr_before,
+                              lrescale_after_load=lr_after, rel_err=e, oracle_uncertainty=0.0))
+    # ------------------------------------------------------------------ MEGNO with every integrator that computes it, and after a restore
+    meg = {}
+    sym = System(rebound, 1.0, 1.0, [(1e-4, "orb", [1.0, 0.05, 0.03, 0.3, 0.4, 0.5]), (1e-4, "orb", [2.2, 0.04, 0.05, 1.3, 2.4, 1.5])])
+    simb = sym.build("bs", None, {})
+    simb.init_megno(seed=5)
+    try:
+        simb.integrate(1.0)
+        meg["bs"] = "accepted"
+        c.violation("megno:bs-accepted", "BS integrates with init_megno() although it does not compute MEGNO", {})
+    except Exception as ex:
+        meg["bs"] = "rejected: " + str(ex)[:70]
+    for integ, norb, tol in (("whfast", 1000, 0.05), ("ias15", 300, 0.1), ("eos", 1000, 0.05)):
+        T = 2 * math.pi * norb
+        sim = sym.build(integ, None, {})
+        sim.dt = 2 * math.pi / 40
+        if integ == "bs":
+            sim.ri_bs.eps_rel = 1e-10; sim.ri_bs.eps_abs = 1e-10
+        sim.move_to_com()
+        sim.init_megno(seed=5)
+        try:
+            sim.integrate(T)
+            Y, ly = sim.megno(), sim.lyapunov() * T
+        except Exception as ex:
+            Y, ly = float("nan"), float("nan")
+            meg[integ + " error"] = repr(ex)[:120]
+        meg[integ] = [float("%.5g" % Y), float("%.3g" % ly)]
+        ntot += 1
+        c.count(("dim", "megno", integ), nontrivial=True)
+        if abs(Y - 2) <= tol and abs(ly) <= 1.0:
+            dim(c, "megno: " + integ)
+        else:
+            fails.append(dict(dimension="megno: " + integ, integrator=integ, keys=[], megno=Y, lyapunov_T=ly, rel_err=abs(Y - 2), oracle_uncertainty=0.0, bodies=sym.bodies))
+    for integ in (["whfast", "ias15"] if full else ["whfast"]):
+        T = 2 * math.pi * 300
+        res = []
+        for restore in (False, True):
+            sim = sym.build(integ, None, {})
+            sim.dt = 2 * math.pi / 40
+            sim.move_to_com()
+            sim.init_megno(seed=5)
+            sim.integrate(T / 2, exact_finish_time=0)
+            if restore:
+                fn = os.path.join(tmpdir, "c16m_%d.bin" % os.getpid())
+                sim.save_to_file(fn, delete_file=True)
+                sim = rebound.Simulation(fn)
+                os.remove(fn)
+            sim.integrate(T, exact_finish_time=0)
+            res.append((sim.megno(), sim.lyapunov()))
+        dY = abs(res[0][0] - res[1][0])
+        meg["after restore " + integ] = [float("%.6g" % res[1][0]), float("%.3g" % dY)]
+        ntot += 1
+        c.count(("dim", "megno-restore", integ), nontrivial=True)
+        if dY <= 1e-6 and abs(res[1][0] - 2) < 0.1:
+            dim(c, "megno: after restore")
+        else:
+            fails.append(dict(dimension="megno: after restore", integrator=integ, keys=[], uninterrupted=res[0], restored=res[1], rel_err=dY, oracle_uncertainty=0.0))
+    c.cov["dimension_runs"] = {"configurations": ntot, "inconclusive": ninc, "threshold": THR,
+                               "worst_rel": {k: float("%.3g" % v) for k, v in sorted(worst.items())},
+                               "outside_the_property_measured": measured, "megno": meg}
+    seen = set()
+    for f in sorted(fails, key=lambda r_: -(r_["rel_err"] if r_["rel_err"] == r_["rel_err"] else 1e300)):
+        if f["dimension"] == "frame: move_to_hel mid-run":
+            key = "F23:move_to_hel-ignores-variational"
+        elif f["dimension"] == "roles: single active body" and f["integrator"] == "whfast" and f.get("keys") and f["keys"][0][0] == 1:
+            key = "F24:var-testparticle-loop-ignores-starti"
+        else:
+            key = "dimension:" + f["dimension"].split(":")[0] + ":" + f["dimension"].split(": ", 1)[-1].replace(" ", "-")[:40] + ":" + f["integrator"]
+        if key in seen:
+            continue
+        seen.add(key)
+        c.violation(key, "[%s] %s variation %s differs from the finite difference of equally treated shadow runs by %.3g" %
+                    (f["dimension"], f["integrator"], f.get("keys"), f["rel_err"]), f)
+
+
+def finalize_dimensions(c):
+    """dimensions covered by the other phases are counted here from their evidence; a zero count is a broken obligation"""
+    cov = c.cov
+    comp = cov.get("comparisons", {})
+    rr = cov.get("rejected_step_runs", {}).get("rejected_steps_total", {})
+    if sum(rr.values()) > 0:
+        dim(c, "history: rejected steps", sum(rr.values()))
+    n_res = sum(1 for v in cov.get("rescale_runs", {}).values() if v.get("lrescale", 0) > 0)
+    if n_res:
+        dim(c, "history: rescale event", n_res)
+    if comp.get("vary_dispatch", {}).get("calls", 0) and not comp["vary_dispatch"].get("disagreements"):
+        dim(c, "python: shortcut names", 2 * 18)
+    nbig = cov.get("tie_big_N_cases", 0)
+    if nbig:
+        dim(c, "scale: more than 128 particles (allocation boundary)", nbig)
+    d_ = cov.setdefault("dimensions", {})
+    missing = [n for n in APPLICABLE_DIMENSIONS if d_.get(n, 0) == 0]
+    for n in APPLICABLE_DIMENSIONS:
+        d_.setdefault(n, 0)
+    if missing:
+        c.corr_break("dimension(s) not covered: " + "; ".join(missing))
+
+
 def run(c):
     if "--replay" in sys.argv:
         # runs are reproducible from (seed, tier): a replay re-runs the check exactly as it ran when the file was written
@@ -2015,8 +2452,10 @@ def run(c):
     run_phase(c, "derivatives", lambda: search_derivatives(c, rebound), 120 * big)
     run_phase(c, "shadow", lambda: search_shadow(c, rebound), 150 * (10 if c.thorough else 1))
     run_phase(c, "rescale-megno", lambda: search_rescale_megno(c, rebound), 60 * big)
+    run_phase(c, "dimensions", lambda: search_dimensions(c, rebound), 150 * (8 if c.thorough else 1))
     run_phase(c, "rejected-steps", lambda: search_rejected_steps(c, rebound), 90 * big)
     run_phase(c, "whfast-tangent", lambda: search_whfast_tangent(c, rebound), 90 * big)
+    finalize_dimensions(c)
 
 
 if __name__ == "__main__":
